@@ -153,6 +153,18 @@ def gen_script_fields(rng, depth_left, width):
     return fs
 
 
+def with_w(fs):
+    """the field JSON the engine prints (adds the wire type)"""
+    W = {"varint": 0, "fixed64": 1, "fixed32": 5, "bytes": 2, "msg": 2, "packed64": 2, "packed32": 2, "group": 3}
+    out = []
+    for f in fs:
+        g = dict(f, w=W[f["t"]])
+        if f["t"] in ("msg", "group"):
+            g["v"] = with_w(f["v"])
+        out.append(g)
+    return out
+
+
 def script_tree_json(fs):
     out = []
     for f in fs:
@@ -165,6 +177,33 @@ def script_tree_json(fs):
             out.append({"n": f["n"], "t": "packed64", "v": [str(x) for x in f["v"]]})
         else:
             out.append({"n": f["n"], "t": t, "v": script_tree_json(f["v"])})
+    return out
+
+
+def sized_message(n):
+    """fields (number 2 strings, number 3 varints) whose canonical encoding is exactly n bytes"""
+    for pad in range(0, 4):
+        rest = n - 2 * pad
+        for m in range(max(0, rest - 5), rest):
+            if 1 + len(varint(m)) + m == rest:
+                return [{"t": "bytes", "n": 2, "v": b"a" * m}] + [{"t": "varint", "n": 3, "v": 1}] * pad
+    raise ValueError(n)
+
+
+def boundary_trees(sizes):
+    """every length-delimited construct Protowire::serialize emits, with a payload of exactly the given
+    sizes (around the varint length boundaries): string, nested message, message in message, packed
+    varints, message inside a group"""
+    out = []
+    for n in sizes:
+        out.append(("string", n, [{"t": "bytes", "n": 2, "v": b"b" * n}]))
+        out.append(("message", n, [{"t": "msg", "n": 1, "v": sized_message(n)}]))
+        inner = [{"t": "msg", "n": 1, "v": sized_message(n - 3 if n > 130 else n - 2)}]
+        if len(enc_fields(inner)) == n:
+            out.append(("message-in-message", n, [{"t": "msg", "n": 1, "v": inner}]))
+        out.append(("packed", n, [{"t": "packed", "n": 4, "et": 0, "v": [1] * n}]))
+        out.append(("message-in-group", n, [{"t": "group", "n": 5, "v": [{"t": "msg", "n": 1, "v": sized_message(n)}]},
+                                            {"t": "varint", "n": 3, "v": 9}]))
     return out
 
 
@@ -420,6 +459,9 @@ def run(ck, binary, run_impl, replay):
             b = enc_fields(tree)
             for mx in range(1, nest(tree) + 4):
                 cases.append(mk_parse(b, dict(o, max=mx), tree=tree, origin="siblings"))
+        # (b3) payload sizes around the varint length boundaries, for every length-delimited construct
+        for kind, n, tr in boundary_trees([127, 128, 129, 16383, 16384, 16385]):
+            cases.append(mk_parse(enc_fields(tr), {"msg": [1], "packed": {4: 0}, "max": 0}, tree=tr, origin="boundary"))
         # (c) packed field without configured element type, unsupported element type
         cases.append(mk_parse(bytes.fromhex("1a03010203"), None, packno=[3], origin="cfg"))
         cases.append(mk_parse(bytes.fromhex("1a03010203"), {"msg": [], "packed": {3: 2}, "max": 0}, origin="cfg"))
@@ -539,10 +581,25 @@ def run(ck, binary, run_impl, replay):
         for _ in range(150 if quick else 3000):
             tr = gen_script_fields(rng, rng.randint(0, 4), 4)
             scases.append({"k": "wire.script", "tree": script_tree_json(tr), "_bytes": enc_fields(tr).hex()})
-        souts = run_impl(ck, binary, pcases + [strip(c) for c in scases])
+        # length boundaries of every length-delimited construct, byte for byte and parsed back
+        sizes = [126, 127, 128, 129, 130, 16383, 16384, 16385] + ([2097151, 2097152, 2097153] if not quick else [])
+        bo = {"msg": [1], "packed": {4: 0}, "max": 0}
+        for kind, n, tr in boundary_trees(sizes):
+            if n > 20000 and kind == "packed":
+                continue
+            b = enc_fields(tr)
+            scases.append({"k": "wire.script", "tree": script_tree_json(tr), "_bytes": b.hex(), "_kind": "%s:%d" % (kind, n)})
+            pcases.append(dict(strip(mk_parse(b, bo)), k="wire.parse.script", _want=script_tree_json(tr)))
+        souts = run_impl(ck, binary, [strip(c) for c in pcases] + [strip(c) for c in scases])
         if len(souts) != len(pcases) + len(scases):
             ck.broken.append("harness-run:wire-script")
         else:
+            for pc, so in zip(pcases[len(sample):], souts[len(sample):len(pcases)]):
+                got = json.dumps(so.get("fields"), sort_keys=True)
+                want = json.dumps(with_w(pc["_want"]), sort_keys=True)
+                if got != want:
+                    ck.violation("wire:parse-method:boundary", {"part": NAME, "case": strip(pc), "impl_out": str(so)[:400],
+                                                                "clause": "Protowire::parse of a length-boundary encoding <> the tree"})
             for i, pc, so in zip(sample, pcases, souts[:len(pcases)]):
                 go = o_cases[i]
                 same = ("fields" in go and so.get("fields") == go["fields"]) or ("err" in go and so.get("throw") is True)
@@ -553,7 +610,7 @@ def run(ck, binary, run_impl, replay):
                                                                                    "go_level": go, "clause": "Protowire::parse result <> ParseRawFields result"})
             for c, so in zip(scases, souts[len(pcases):]):
                 if so.get("out") != c["_bytes"]:
-                    ck.violation("wire:serialize-method", {"part": NAME, "case": strip(c), "impl_out": {k: v for k, v in so.items() if k != "src"},
+                    ck.violation("wire:serialize-method" + (":boundary:" + c["_kind"].split(":")[0] if c.get("_kind") else ""), {"part": NAME, "case": strip(c), "impl_out": {k: v for k, v in so.items() if k != "src"},
                                                            "expected": c["_bytes"], "clause": "Protowire::serialize output <> canonical encoding of the tree"})
             nscript = len(pcases) + len(scases)
         ck.log("wire: script-level parse / serialize compared")
